@@ -38,7 +38,7 @@ TRUSTED_BASE = [
 # per property: extra Coq targets (harness glue), whether the driver needs a second build, etc.
 PROPS = {}
 def prop(pid, **kw):
-    d = dict(harness_v=f"Harness/{pid}H.vo", driver=pid.lower(), tags="verif", race=False, extra_builds=[], timeout_quick=900, timeout_thorough=7200)
+    d = dict(harness_v=f"Harness/{pid}H.vo", driver=pid.lower(), tags="verif", race=False, variants=[], timeout_quick=900, timeout_thorough=7200)
     d.update(kw)
     PROPS[pid] = d
 
@@ -46,6 +46,7 @@ for _p in ["C%02d" % i for i in range(1, 20)]:
     prop(_p)
 PROPS["C02"]["driver"] = "c01"; PROPS["C03"]["driver"] = "c01"
 PROPS["C02"]["harness_v"] = "Harness/C01H.vo"; PROPS["C03"]["harness_v"] = "Harness/C01H.vo"
+PROPS["C07"]["variants"] = [("bin", "verif binary_log")]   # the same driver built a second time with the binary encoder
 PROPS["C15"]["race"] = True
 PROPS["C18"]["race"] = True
 for _p in ("C08", "C09", "C17"):
@@ -423,16 +424,48 @@ def main():
                     broken.append(f"driver exited with {rc}: " + out[-1500:])
                 else:
                     drv_res = json.load(open(rp))
+                    drv_res["shard_list"] = [(work, sn) for sn in (drv_res.get("shards") or [])]
+            # the same driver under other build tags (e.g. the binary encoder); results are merged
+            for suffix, vtags in cfg.get("variants", []):
+                if drv_res is None:
+                    break
+                vbin = os.path.join(HARNESS, "bin", cfg["driver"] + "_" + suffix)
+                rc, out, dt = go_build(vbin, "./cmd/" + cfg["driver"], tags=vtags, race=cfg["race"])
+                log.append(f"== go build {cfg['driver']} [{vtags}] ({dt:.1f}s)\n" + out)
+                if rc != 0:
+                    broken.append(f"harness build ({vtags}) against /repo failed: " + out[-1500:])
+                    continue
+                vwork = os.path.join(work, suffix)
+                os.makedirs(vwork, exist_ok=True)
+                cmd = [vbin, "-prop", pid, "-tier", tier, "-seed", str(seed), "-out", vwork]
+                rc, out, dt = sh(cmd, cwd=HARNESS, env=env, timeout=cfg["timeout_thorough" if tier == "thorough" else "timeout_quick"])
+                log.append(f"== drv [{vtags}] ({dt:.1f}s)\n" + out[-20000:])
+                rp = os.path.join(vwork, "result.json")
+                if rc != 0 or not os.path.exists(rp):
+                    broken.append(f"driver ({vtags}) exited with {rc}: " + out[-1500:])
+                    continue
+                vr = json.load(open(rp))
+                drv_res["evaluations"] += vr.get("evaluations", 0)
+                drv_res["distinct_nontrivial"] += vr.get("distinct_nontrivial", 0)
+                drv_res["model_cases"] = drv_res.get("model_cases", 0) + vr.get("model_cases", 0)
+                drv_res["violations"] += vr.get("violations", [])
+                drv_res["notes"] = (drv_res.get("notes") or []) + (vr.get("notes") or [])
+                drv_res["samples"] = (drv_res.get("samples") or []) + (vr.get("samples") or [])[:2]
+                for hk, hv in (vr.get("histograms") or {}).items():
+                    drv_res.setdefault("histograms", {})[suffix + ":" + hk] = hv
+                for sn in vr.get("shards", []) or []:
+                    drv_res["shard_list"].append((vwork, sn))
+                drv_res.setdefault("extra_coverage", {})["variant_" + suffix] = dict(tags=vtags, evaluations=vr.get("evaluations", 0), violations=len(vr.get("violations", [])))
         # 4. model vs implementation
         mismatches = []
         shard_time = 0.0
-        if drv_res and drv_res.get("shards"):
+        if drv_res and drv_res.get("shard_list"):
             hv = os.path.join(COQ, cfg["harness_v"]) if cfg["harness_v"] else None
             if hv and not os.path.exists(hv):
                 broken.append("model not built: " + cfg["harness_v"])
             else:
                 with concurrent.futures.ThreadPoolExecutor(max_workers=16) as ex:
-                    for name, idx, err, dt in ex.map(eval_shard, [(work, s) for s in drv_res["shards"]]):
+                    for name, idx, err, dt in ex.map(eval_shard, drv_res["shard_list"]):
                         shard_time += dt
                         if idx is None:
                             broken.append(f"shard {name} did not evaluate: {err[-800:]}")
@@ -504,7 +537,7 @@ def main():
         rule=(drv_res or {}).get("rule", ""),
         samples=(drv_res or {}).get("samples", []) or [dict(obligation=t) for t in thms[:3]],
         model_cases=(drv_res or {}).get("model_cases", 0),
-        model_shards=len((drv_res or {}).get("shards", []) or []),
+        model_shards=len((drv_res or {}).get("shard_list", []) or []),
         model_mismatches=len(mismatches),
         model_eval_s=round(shard_time, 1),
         histograms=(drv_res or {}).get("histograms", {}),
